@@ -278,6 +278,13 @@ pub struct Knobs {
     /// Request multi-line mode if the case does not, and vice versa (only
     /// used with patterns that cannot match a line terminator).
     pub toggle_ml: bool,
+    /// Non-zero: the searcher is not fresh. Before the search under test it
+    /// performs a warm-up search (other data, strategy and ending derived from
+    /// this value) the way a worker searches file after file with one Searcher.
+    pub warm: u64,
+    /// The search runs on a clone of the built searcher (ripgrep clones its
+    /// searcher once per worker thread).
+    pub cloned: bool,
 }
 
 pub fn build_searcher(cfg: &Cfg, knobs: &Knobs) -> Searcher {
@@ -314,7 +321,12 @@ pub fn build_searcher(cfg: &Cfg, knobs: &Knobs) -> Searcher {
             b.encoding(Some(Encoding::new(label).expect("encoding label")));
         }
     }
-    b.build()
+    let s = b.build();
+    if knobs.cloned {
+        s.clone()
+    } else {
+        s
+    }
 }
 
 pub const CAPACITIES: [usize; 11] = [1, 2, 3, 5, 8, 16, 31, 64, 257, 4096, 65536];
